@@ -876,6 +876,247 @@ fn transpose_rect(a: &[f64], r: usize, c: usize) -> Vec<f64> {
     t
 }
 
+// ------------------------------------------------------------------------------------------------
+// Fourth family (stream 4): the right-hand side is quantified over on its own ("every nonsingular A
+// and right-hand side B"). Its absolute scale is arbitrary and independent of the scale of A, and so is
+// its structure. The residual bound ε·(‖A‖‖X‖ + ‖B‖) scales with B (X is linear in B), so the same
+// column-wise backward-error oracle C·n·ε judges a right-hand side of size 1e-290 exactly as one of
+// size 1 — as long as every quantity involved stays inside the normal f64 range, which the generator
+// guarantees (`in_range`). Three relations between the scales of A and B:
+//   B-only       A ordinary, B·s                    (X scales with s)
+//   A-with-B     A·s, B·s                           (X ordinary)
+//   A-against-B  A·s, B/s                           (X scales with 1/s²)
+// with s a power of two (exact) or of ten, in seven bands of decades; the band 1e-25..1e-16 is the one
+// just below machine epsilon, where a right-hand side is "small" for any absolute tolerance. Special
+// right-hand sides at ordinary scale of A: an exactly zero column (the answer has to be exactly zero:
+// anything else has a backward error of at least 1/κ), unit vectors, one tiny entry among ordinary
+// ones, tiny entries with a single ordinary one, entries of very different magnitude, columns at very
+// different scales, leading / trailing zeros, sparse columns. Every system goes through all six entry
+// points and every agreement relation, like the systems of the other families.
+
+const SCALE_BASE: [&str; 7] = ["dense", "spd", "spd-sparse", "diag-dominant", "integer", "posdiag-skew", "near-symmetric"];
+/// decades of the scale factor s (lo, hi)
+const SCALE_BANDS: [(f64, f64); 7] = [(-290.0, -100.0), (-100.0, -25.0), (-25.0, -16.0), (-16.0, -3.0), (3.0, 16.0), (16.0, 100.0), (100.0, 290.0)];
+const SCALE_REGIMES: [[&str; 7]; 3] = [
+    [
+        "rhs-scale:B-only:s=1e-290..1e-100", "rhs-scale:B-only:s=1e-100..1e-25", "rhs-scale:B-only:s=1e-25..1e-16", "rhs-scale:B-only:s=1e-16..1e-3",
+        "rhs-scale:B-only:s=1e3..1e16", "rhs-scale:B-only:s=1e16..1e100", "rhs-scale:B-only:s=1e100..1e290",
+    ],
+    [
+        "rhs-scale:A-with-B:s=1e-290..1e-100", "rhs-scale:A-with-B:s=1e-100..1e-25", "rhs-scale:A-with-B:s=1e-25..1e-16", "rhs-scale:A-with-B:s=1e-16..1e-3",
+        "rhs-scale:A-with-B:s=1e3..1e16", "rhs-scale:A-with-B:s=1e16..1e100", "rhs-scale:A-with-B:s=1e100..1e290",
+    ],
+    [
+        "rhs-scale:A-against-B:s=1e-290..1e-100", "rhs-scale:A-against-B:s=1e-100..1e-25", "rhs-scale:A-against-B:s=1e-25..1e-16", "rhs-scale:A-against-B:s=1e-16..1e-3",
+        "rhs-scale:A-against-B:s=1e3..1e16", "rhs-scale:A-against-B:s=1e16..1e100", "rhs-scale:A-against-B:s=1e100..1e290",
+    ],
+];
+const SPECIAL_REGIMES: [&str; 9] = [
+    "rhs-special:zero-column",
+    "rhs-special:unit-vectors",
+    "rhs-special:one-tiny-entry",
+    "rhs-special:tiny-with-one-ordinary-entry",
+    "rhs-special:mixed-magnitudes",
+    "rhs-special:columns-at-different-scales",
+    "rhs-special:leading-zeros",
+    "rhs-special:trailing-zeros",
+    "rhs-special:sparse",
+];
+const RHS_FAMILY: usize = 21 + 9;
+
+/// Everything the solvers and the oracle touch stays in the normal range: ‖A‖, ‖A⁻¹‖ ≤ κ/‖A‖, and per
+/// non-zero column ‖b‖, ‖A‖‖x‖ ≤ κ‖b‖, ‖b‖/‖A‖ ≤ ‖x‖ ≤ κ‖b‖/‖A‖.
+fn in_range(a: &[f64], b: &[f64], n: usize, k: usize, kappa: f64) -> bool {
+    if !all_finite(a) || !all_finite(b) {
+        return false;
+    }
+    let an = linref::inf_norm(a, n, n);
+    if !(an >= 1e-280 && an <= 1e280 && kappa / an <= 1e300) {
+        return false;
+    }
+    for j in 0..k {
+        let bn = max_abs(&col(b, n, k, j));
+        if bn == 0.0 {
+            continue;
+        }
+        if !(bn >= 1e-295 && bn <= 1e295 && kappa * bn <= 1e300 && kappa * bn / an <= 1e300 && bn / an >= 1e-295) {
+            return false;
+        }
+    }
+    true
+}
+
+fn generate_rhs_family(rng: &mut Rng, which: usize, n: usize) -> Option<(Sys, f64)> {
+    let class = *rng.choose(&SCALE_BASE);
+    let n = if which >= 21 + 2 && which != 21 + 4 && which != 21 + 5 { n.max(2) } else { n };
+    let (base, kappa) = generate(rng, class, n)?;
+    let Sys { n, k, a, mut b, mut xstar, how, .. } = base;
+    if which < 21 {
+        let (mode, band) = (which / 7, which % 7);
+        let (lo, hi) = SCALE_BANDS[band];
+        // X = A⁻¹B scales with 1/s² when A and B move against each other: half the decades
+        let lim = if mode == 2 { 135.0 } else { 290.0 };
+        let (lo, hi) = (lo.max(-lim), hi.min(lim));
+        for _attempt in 0..8 {
+            let d = rng.range(lo, hi);
+            let pow2 = rng.bool();
+            let (s, sname) = if pow2 {
+                let e = (d * std::f64::consts::LOG2_10).round() as i32;
+                // 2^e within the band's decades
+                let e = e.clamp((lo * std::f64::consts::LOG2_10).ceil() as i32, (hi * std::f64::consts::LOG2_10).floor() as i32);
+                (2f64.powi(e), format!("2^{}", e))
+            } else {
+                (10f64.powf(d), format!("10^{:.3}", d))
+            };
+            let a2: Vec<f64> = if mode == 0 { a.clone() } else { a.iter().map(|v| v * s).collect() };
+            let b2: Vec<f64> = if mode == 2 { b.iter().map(|v| v / s).collect() } else { b.iter().map(|v| v * s).collect() };
+            if !in_range(&a2, &b2, n, k, kappa) {
+                continue;
+            }
+            // the exact solution of an integer system moves along exactly when s is a power of two
+            let xs = match (&xstar, pow2, mode) {
+                (Some(x), true, 0) => Some(x.iter().map(|v| v * s).collect::<Vec<f64>>()),
+                (Some(x), true, 1) => Some(x.clone()),
+                (Some(x), true, _) => Some(x.iter().map(|v| v / s / s).collect::<Vec<f64>>()),
+                _ => None,
+            };
+            let xs = xs.filter(|x| all_finite(x) && max_abs(x) < 1e295 && x.iter().all(|v| *v == 0.0 || v.abs() > 1e-295));
+            let how = format!("{} [{}]; scale relation {}, s = {}", how, class, ["A, B·s", "A·s, B·s", "A·s, B/s"][mode], sname);
+            return Some((Sys { regime: SCALE_REGIMES[mode][band], n, k, a: a2, b: b2, xstar: xs, how }, kappa));
+        }
+        return None;
+    }
+    let sp = which - 21;
+    let val = |rng: &mut Rng| (0.25 + rng.f64()) * if rng.chance(0.4) { -1.0 } else { 1.0 };
+    let mut keep_exact = false;
+    let what;
+    match sp {
+        0 => {
+            let j0 = rng.usize(0, k - 1);
+            for i in 0..n {
+                b[i * k + j0] = 0.0;
+            }
+            if let Some(x) = &mut xstar {
+                for i in 0..n {
+                    x[i * k + j0] = 0.0;
+                }
+                keep_exact = true;
+            }
+            what = format!("column {} of B exactly zero", j0);
+        }
+        1 => {
+            let mut pos = Vec::new();
+            for j in 0..k {
+                let p = rng.usize(0, n - 1);
+                let f = if rng.bool() { 1.0 } else { 2f64.powi(rng.int(-20, 20) as i32) * if rng.bool() { 1.0 } else { -1.0 } };
+                for i in 0..n {
+                    b[i * k + j] = if i == p { f } else { 0.0 };
+                }
+                pos.push(p);
+            }
+            what = format!("columns of B are multiples of the unit vectors e_p, p = {:?}", pos);
+        }
+        2 => {
+            for j in 0..k {
+                let p = rng.usize(0, n - 1);
+                b[p * k + j] *= 10f64.powf(-rng.range(17.0, 300.0));
+            }
+            what = "one entry of every column multiplied by 10^-u, u in [17,300]".to_string();
+        }
+        3 => {
+            for j in 0..k {
+                let p = rng.usize(0, n - 1);
+                let f = 10f64.powf(-rng.range(17.0, 40.0));
+                for i in 0..n {
+                    if i != p {
+                        b[i * k + j] *= f;
+                    }
+                }
+            }
+            what = "every column multiplied by 10^-u, u in [17,40], except one entry".to_string();
+        }
+        4 => {
+            for v in b.iter_mut() {
+                *v = 10f64.powf(rng.range(-30.0, 30.0)) * if rng.bool() { 1.0 } else { -1.0 };
+            }
+            what = "entries ±10^u with independent u in [-30,30]".to_string();
+        }
+        5 => {
+            let mut us = Vec::new();
+            for j in 0..k {
+                let u = rng.range(-250.0, 250.0).round();
+                let f = 10f64.powf(u);
+                for i in 0..n {
+                    b[i * k + j] *= f;
+                }
+                us.push(u);
+            }
+            what = format!("column j multiplied by 10^u_j, u = {:?}", us);
+        }
+        6 | 7 => {
+            for j in 0..k {
+                let z = rng.usize(1, n - 1);
+                for i in 0..n {
+                    if (sp == 6 && i < z) || (sp == 7 && i >= n - z) {
+                        b[i * k + j] = 0.0;
+                    }
+                }
+            }
+            what = format!("every column {} with 1..n-1 zeros", if sp == 6 { "starts" } else { "ends" });
+        }
+        _ => {
+            for j in 0..k {
+                for i in 0..n {
+                    b[i * k + j] = if rng.chance(0.25) { if rng.bool() { val(rng) } else { 1.0 } } else { 0.0 };
+                }
+                if (0..n).all(|i| b[i * k + j] == 0.0) {
+                    b[rng.usize(0, n - 1) * k + j] = -1.0;
+                }
+            }
+            what = "sparse columns (an entry is non-zero with probability 1/4, at least one)".to_string();
+        }
+    }
+    if !in_range(&a, &b, n, k, kappa) {
+        return None;
+    }
+    if !keep_exact {
+        xstar = None;
+    }
+    let how = format!("{} [{}]; {}", how, class, what);
+    Some((Sys { regime: SPECIAL_REGIMES[sp], n, k, a, b, xstar, how }, kappa))
+}
+
+/// The oracle itself must not care about the absolute scale: the backward error of (A, x·2^e, b·2^e)
+/// and of (A·2^e, x, b·2^e) is that of (A, x, b). Returns a description of the first discrepancy.
+fn oracle_scale_selfcheck(rng: &mut Rng) -> Option<String> {
+    let n = 5;
+    let a = gen_diag_dom(rng, n, false);
+    let b: Vec<f64> = (0..n).map(|_| rng.range(-1.0, 1.0)).collect();
+    // any vector will do as a candidate solution; a slightly perturbed one has a non-trivial residual
+    let x: Vec<f64> = match guard(|| solve(&a, &b)) {
+        Ok(x) if x.len() == n && all_finite(&x) => x.iter().map(|v| v * (1.0 + 1e-9 * rng.range(-1.0, 1.0))).collect(),
+        _ => b.clone(),
+    };
+    let anorm = linref::inf_norm(&a, n, n);
+    let be0 = backward_error(&a, n, anorm, &x, &b);
+    if !(be0 > 0.0 && be0.is_finite()) {
+        return Some(format!("reference backward error {}", be0));
+    }
+    for e in [-950, -600, -60, -53, 40, 600, 950] {
+        let f = 2f64.powi(e);
+        let (xs, bs): (Vec<f64>, Vec<f64>) = (x.iter().map(|v| v * f).collect(), b.iter().map(|v| v * f).collect());
+        let as_: Vec<f64> = a.iter().map(|v| v * f).collect();
+        let be1 = backward_error(&a, n, anorm, &xs, &bs);
+        let be2 = backward_error(&as_, n, anorm * f, &x, &bs);
+        for (which, be) in [("B and X scaled", be1), ("A and B scaled", be2)] {
+            if !((be / be0 - 1.0).abs() <= 1e-9) {
+                return Some(format!("backward error {} at scale 2^{} ({}) against {} at scale 1", be, e, which, be0));
+            }
+        }
+    }
+    None
+}
+
 /// κ∞ from the double-double inverse; None if singular / too ill-conditioned for the class
 fn cond_ok(a: &[f64], n: usize, limit: f64) -> Option<f64> {
     let c = cond_inf(a, n);
@@ -1292,7 +1533,7 @@ fn one_system(rep: &mut Report, s: &Sys, kappa: f64) {
 }
 
 pub fn run(cfg: &Cfg, rep: &mut Report) {
-    rep.rule = "stream 1, case i: class = CLASSES[i mod 11], order n = 1 + (i div 11) mod Nmax (every class meets every order); stream 2 likewise over the 12 classes of CLASSES2 (negated twins of the symmetric / positive-diagonal classes, symmetric matrices with mixed-sign or zero diagonal, tri-/penta-/cyclic bi-diagonal and Hessenberg matrices with tiny or zero diagonal entries, dominant band matrices); 1..6 right-hand-side columns at random; stream 3: orders 1..4 x 5 kinds of matrices that are ill-conditioned by cancellation (U·diag(s)·V^T and its symmetric positive definite twin U·diag(s)·U^T with random rotations and graded singular values, nearly parallel rows, nearly parallel columns, Gram matrices of nearly parallel columns; cond up to 1e10) with consistent right-hand sides B = A·X0, |X0| = O(1); each system goes through all six entry points, solve(-A,-b) is compared with solve(A,b) and inverse·b with the solver's answer. non-trivial = order >= 2 and A not diagonal; distinct by hash of (class, n, bits of A)".into();
+    rep.rule = "stream 1, case i: class = CLASSES[i mod 11], order n = 1 + (i div 11) mod Nmax (every class meets every order); stream 2 likewise over the 12 classes of CLASSES2 (negated twins of the symmetric / positive-diagonal classes, symmetric matrices with mixed-sign or zero diagonal, tri-/penta-/cyclic bi-diagonal and Hessenberg matrices with tiny or zero diagonal entries, dominant band matrices); 1..6 right-hand-side columns at random; stream 3: orders 1..4 x 5 kinds of matrices that are ill-conditioned by cancellation (U·diag(s)·V^T and its symmetric positive definite twin U·diag(s)·U^T with random rotations and graded singular values, nearly parallel rows, nearly parallel columns, Gram matrices of nearly parallel columns; cond up to 1e10) with consistent right-hand sides B = A·X0, |X0| = O(1); stream 4, case i: regime = i mod 30 (3 scale relations between A and B x 7 bands of decades of the scale factor, 9 special right-hand sides: zero column, unit vectors, one tiny entry, tiny entries with one ordinary, mixed magnitudes, columns at different scales, leading / trailing zeros, sparse), order 1 + (i div 30) mod Nmax, base matrix from 7 of the classes of stream 1; each system goes through all six entry points, solve(-A,-b) is compared with solve(A,b) and inverse·b with the solver's answer. non-trivial = order >= 2 and A not diagonal; distinct by hash of (class, n, bits of A)".into();
     rep.assume("A is finite, of order 1..32, nonsingular with cond_inf below 1e10 (1e14 for the graded / triangular classes) as measured by a double-double inverse; singular and non-finite inputs are outside the quantifier");
     rep.assume(&format!("backward-error bound C·n·eps with C = {} and eps = 2^-52, per column: |A x_j - b_j|_inf <= C n eps (|A|_inf |x_j|_inf + |b_j|_inf); forward comparisons use 2·C·n·eps·cond_inf", C));
     rep.assume("weak-diagonal band classes: off-diagonal band entries ±(0.5,2), diagonal entries zero / tiny (1e-14..1e-3) / ±(0.5,2) in per-matrix proportions, kept only if cond_inf <= 1e10 (the matrices are well conditioned, only their leading pivots are not usable without row exchanges)");
@@ -1356,6 +1597,32 @@ pub fn run(cfg: &Cfg, rep: &mut Report) {
             None => rep.seen(&format!("generator-gave-up:small-illcond:{}", SMALL_KINDS[kd]), 1),
         }
     });
+    // fourth family: right-hand sides at other absolute scales / with special structure
+    rep.assume("rhs-scale / rhs-special regimes: base systems of the classes dense, spd, spd-sparse, diag-dominant, integer, posdiag-skew, near-symmetric (cond_inf <= 1e10); scale factor s = 2^e or 10^d with |d| <= 290 (|d| <= 135 when A and B are scaled against each other, since X scales with 1/s^2); a scaled system is used only if |A|, cond/|A| and per non-zero column |b|, cond·|b|, cond·|b|/|A|, |b|/|A| lie within 1e-295..1e300 (no overflow, no loss of relative precision to underflow at the level of the norms); the bound C·n·eps·(|A||x|+|b|) scales with B, the oracle's own scale invariance is self-checked; a zero column must be answered by an exactly zero column (implied by the bound: any other finite answer has backward error >= 1/cond)");
+    const MIRI_RHS: [usize; 6] = [2, 7 + 2, 14 + 4, 21, 21 + 1, 21 + 4];
+    let ncases4 = if cfg.miri() { MIRI_RHS.len() } else { RHS_FAMILY * cfg.pick(32, 640, 1) };
+    par_cases(cfg, rep, 4, ncases4, |i, rng: &mut Rng, rep| {
+        if i == 0 {
+            if let Some(msg) = oracle_scale_selfcheck(rng) {
+                rep.inconclusive(format!("C01 backward-error oracle is not scale invariant: {}", msg));
+            }
+        }
+        let which = if cfg.miri() { MIRI_RHS[i % MIRI_RHS.len()] } else { i % RHS_FAMILY };
+        let n = if cfg.miri() { MIRI_ORDERS[i % 2] } else { 1 + (i / RHS_FAMILY) % nmax };
+        match generate_rhs_family(rng, which, n) {
+            Some((s, kappa)) => one_system(rep, &s, kappa),
+            None => rep.seen(if which < 21 { "generator-gave-up:rhs-scale" } else { "generator-gave-up:rhs-special" }, 1),
+        }
+    });
+    if cfg.miri() {
+        for &w in MIRI_RHS.iter() {
+            rep.require(if w < 21 { SCALE_REGIMES[w / 7][w % 7] } else { SPECIAL_REGIMES[w - 21] }, 1);
+        }
+    } else {
+        for r in SCALE_REGIMES.iter().flatten().chain(SPECIAL_REGIMES.iter()) {
+            rep.require(r, 1);
+        }
+    }
     for &(kd, n) in small_used.iter() {
         rep.require(SMALL_REGIMES[kd][n - 1], 1);
     }
